@@ -8,6 +8,7 @@ pool (not only the arguments) and the inline arguments are deep-snapshotted; the
   correspondence: the same history is replayed on the Lean object-store model (OQ/Model/C20.lean); results
                   and the final pool must agree (exact rationals, 1e-9 on inexact floats).
 """
+import json
 import os
 import tempfile
 from fractions import Fraction
@@ -18,25 +19,38 @@ from ..common import rat, unrat
 PROP = "C20"
 RULE = ("random call histories (8-22 calls) on a shared pool of circuits / Pauli terms and sums / measurement sets / "
         "distributions / wavefunctions plus the raw lists, dicts and arrays they were built from; every call is "
-        "bracketed by deep snapshots of the WHOLE pool and made twice; non-trivial: a history with >= 2 listed calls "
-        "that share at least one pool object; distinct = distinct canonical JSON of the history")
+        "bracketed by deep snapshots of the WHOLE pool and made twice on the same inline arguments; identical calls and "
+        "one-component siblings recur later in the history; the whole history is run three ways (as given; object calls "
+        "re-ordered with all reports afterwards, every 8th time on a freshly loaded copy of the library; every call "
+        "followed by reading everything readable and by editing what it returned) and the final deep observations "
+        "must agree; non-trivial: a history with >= 2 listed calls that share at least one pool object; "
+        "distinct = distinct canonical JSON of the history")
 TRUSTED = [
     "numpy / sympy / scipy / json / rapidjson functions the operations call on the values they have READ do not "
     "write through to those values (np.abs, @, Matrix.subs, Counter, json.dumps ...)",
     "the snapshot function observes everything the public API can show (n_qubits, operations, free_symbols, repr of "
     "terms incl. dict order, coefficient value and type, identity of the term objects inside a sum/list, bitstrings, "
     "distribution_dict items in order with exact float bits, amplitude bytes, aliasing of the backing container); "
-    "private caches (_circuit, _circuits, _is_ising) are not part of an object's observable state",
+    "private caches (_circuit, _circuits, _is_ising) are not part of a snapshot - what they can influence is read by the "
+    "deep observation (every argument-free reader and conversion of the object) at the end of each of the three runs",
     "np.random.seed makes get_measurements_representing_distribution repeatable (its draws are external to the model: "
     "the model receives the samples the implementation returned)",
     "iteration order of set(dict keys) in PauliTerm.__iter__ is a CPython detail: model and implementation are compared "
     "up to the key order inside a term",
+    "re-executing the library's modules (importlib, sys.modules swapped and restored) yields a copy whose behaviour differs "
+    "from the first copy only by module-level state accumulated since import",
 ]
 ASSUMPTIONS = [
-    "np.isclose(c, 0) / math.isclose(norm, 1) coincide with the exact tests on the dyadic inputs generated here",
+    "np.isclose(c, 0) in PauliSum.simplify coincides with the exact test on the dyadic coefficients generated here; "
+    "math.isclose(norm, 1) / np.isclose(p, 1) are modelled with their tolerances, and the generated sums stay away from the "
+    "tolerance boundary (|norm-1| < 1e-10 or > 1e-6; |p-1| < 5e-6 or > 1e-4), so float rounding cannot flip them",
     "gate parameters are Python floats (dyadic) or plain sympy Symbols; bind maps send symbols to dyadic numbers",
-    "Python exceptions ValueError / RuntimeError / NotImplementedError / TypeError count as a rejection of the call "
-    "(the frame condition is still checked on that path); any other exception is reported",
+    "Python exceptions ValueError / RuntimeError / NotImplementedError / TypeError / IndexError count as a rejection of the "
+    "call (the frame condition is still checked on that path); any other exception is reported",
+    "a constructor (Circuit, PauliSum, Measurements, MeasurementOutcomeDistribution, Wavefunction) and Wavefunction.bind "
+    "are not among the listed operations: their result may alias the argument exactly as the model says; the results of "
+    "the listed operations are edited through public attributes only at their top-level container",
+    "histories with a symbolic wavefunction are outside the model (oracle only)",
 ]
 
 SYMS = ["theta", "phi"]
@@ -47,29 +61,62 @@ GATES = {"X": (1, 0, True), "H": (1, 0, True), "Z": (1, 0, True), "T": (1, 0, Fa
          "CPHASE": (2, 1, False), "XX": (2, 1, False)}
 
 _LIB = None
+_CASE_NO = 0
+_PYC_DIR = None
+FRESH_EVERY = 8
+
+
+def _build_lib():
+    common.use_repo()
+    import numpy as np
+    import sympy
+    from orquestra.quantum import circuits
+    from orquestra.quantum.circuits import _gates
+    from orquestra.quantum import operators
+    from orquestra.quantum.measurements import Measurements, get_parities_from_measurements
+    from orquestra.quantum import distributions
+    from orquestra.quantum import wavefunction
+
+    class L:
+        pass
+
+    L.np, L.sympy, L.circuits, L.gates, L.ops = np, sympy, circuits, _gates, operators
+    L.Measurements, L.parities = Measurements, get_parities_from_measurements
+    L.dist, L.wfm = distributions, wavefunction
+    return L
 
 
 def _lib():
     global _LIB
     if _LIB is None:
-        common.use_repo()
-        import numpy as np
-        import sympy
-        from orquestra.quantum import circuits
-        from orquestra.quantum.circuits import _gates
-        from orquestra.quantum import operators
-        from orquestra.quantum.measurements import Measurements, get_parities_from_measurements
-        from orquestra.quantum import distributions
-        from orquestra.quantum import wavefunction
-
-        class L:
-            pass
-
-        L.np, L.sympy, L.circuits, L.gates, L.ops = np, sympy, circuits, _gates, operators
-        L.Measurements, L.parities = Measurements, get_parities_from_measurements
-        L.dist, L.wfm = distributions, wavefunction
-        _LIB = L
+        _LIB = _build_lib()
     return _LIB
+
+
+def _fresh_lib():
+    """a SECOND, freshly executed copy of the library's modules (every module-level table, lru_cache and class attribute in
+    its initial state); the copy the rest of the process uses is put back into sys.modules afterwards"""
+    import sys
+    global _PYC_DIR
+    _lib()
+    mine = lambda k: k == "orquestra" or k.startswith("orquestra.")
+    saved = {k: v for k, v in sys.modules.items() if mine(k)}
+    for k in saved:
+        del sys.modules[k]
+    if _PYC_DIR is None:   # compiled modules are kept in a private temporary directory (removed at exit), not recompiled
+        import atexit
+        import shutil
+        _PYC_DIR = tempfile.mkdtemp(prefix="c20_pyc_")
+        atexit.register(shutil.rmtree, _PYC_DIR, True)
+    flags = (sys.dont_write_bytecode, sys.pycache_prefix)
+    sys.dont_write_bytecode, sys.pycache_prefix = False, _PYC_DIR
+    try:
+        return _build_lib()
+    finally:
+        sys.dont_write_bytecode, sys.pycache_prefix = flags
+        for k in [k for k in sys.modules if mine(k)]:
+            del sys.modules[k]
+        sys.modules.update(saved)
 
 
 # ------------------------------------------------------------------ JSON <-> python objects
@@ -168,6 +215,8 @@ def _kind(L, o):
             return "bitlist"
         if o and isinstance(o[0], L.gates.GateOperation):
             return "oplist"
+        if o and isinstance(o[0], L.sympy.Basic):
+            return "symvec"
         return "list"
     return type(o).__name__
 
@@ -215,7 +264,7 @@ def _strict(L, o, ids):
     if k == "sum":
         return [k, type(o.terms).__name__, _ident(ids, o.terms), [_ident(ids, t) for t in o.terms],
                 [_strict(L, t, ids) for t in o.terms], repr(o)]
-    if k == "bitlist" or k == "list":
+    if k in ("bitlist", "list", "symvec"):
         return [k, repr(o)]
     if k == "meas":
         return [k, repr(o.bitstrings), _ident(ids, o.bitstrings)]
@@ -225,10 +274,14 @@ def _strict(L, o, ids):
         return [k, [[repr(kk), _num_strict(v)] for kk, v in o.distribution_dict.items()], _ident(ids, o.distribution_dict),
                 repr(o)]
     if k == "arr":
-        return [k, str(o.dtype), list(o.shape), o.tobytes().hex()]
+        return [k, str(o.dtype), list(o.shape), o.tobytes().hex() if o.dtype != object else [repr(x) for x in o.ravel()]]
     if k == "wf":
+        if not isinstance(o._amplitude_vector, L.np.ndarray):   # symbolic: the entries as iteration shows them
+            return [k, "symbolic", [repr(x) for x in o], _ident(ids, o._amplitude_vector), len(o),
+                    type(o._amplitude_vector).__name__]
         a = o.amplitudes
-        return [k, str(a.dtype), a.tobytes().hex(), _ident(ids, o._amplitude_vector), len(o)]
+        return [k, str(a.dtype), list(a.shape), a.tobytes().hex() if a.dtype != object else [repr(x) for x in a.ravel()],
+                _ident(ids, o._amplitude_vector), len(o), type(o._amplitude_vector).__name__]
     return [k, repr(o)]
 
 
@@ -271,11 +324,25 @@ def _term_model(t):
     return {"ops": sorted([int(q), p] for q, p in t._ops.items()), "coef": _coef_json(t.coefficient)}
 
 
+def _key_bits(k):
+    """the outcome a dict key denotes: a tuple, a digit string, or a comma-separated string of integers"""
+    if isinstance(k, str):
+        return [int(b) for b in (k.split(",") if "," in k else k)]
+    return [int(b) for b in k]
+
+
 def _ddict_model(d):
-    return [[[int(b) for b in k], rat(Fraction(float(v)))] for k, v in d.items()]
+    return [[_key_bits(k), rat(Fraction(float(v)))] for k, v in d.items()]
 
 
 def _model_obs(L, o):
+    try:
+        return _model_obs_(L, o)
+    except (TypeError, ValueError):   # symbolic amplitudes: such histories are outside the model (oracle only)
+        return {"k": _kind(L, o), "symbolic": True}
+
+
+def _model_obs_(L, o):
     k = _kind(L, o)
     if k == "none":
         return None
@@ -334,12 +401,12 @@ def _close(a, b, tol=Fraction(1, 10 ** 9)):
 
 
 # ------------------------------------------------------------------ executing one call on the real library
-OBJECT_OPS = {"lit_ops", "lit_terms", "lit_bits", "lit_dict", "lit_arr", "circ_new", "circ_add", "circ_add_op",
+OBJECT_OPS = {"lit_symvec", "lit_ops", "lit_terms", "lit_bits", "lit_dict", "lit_arr", "circ_new", "circ_add", "circ_add_op",
               "circ_bind", "circ_inverse", "circ_controlled", "term_new", "term_copy", "term_mul", "term_scale",
               "term_add", "term_pow", "sum_new", "sum_add", "sum_mul", "sum_rmul", "sum_pow", "sum_simplify", "op_conj",
               "meas_new", "meas_from_counts", "meas_distribution", "meas_representing", "dist_new", "dist_sub",
               "wf_new", "wf_bind"}
-LITERALS = {"lit_ops", "lit_terms", "lit_bits", "lit_dict", "lit_arr", "term_new"}
+LITERALS = {"lit_symvec", "lit_ops", "lit_terms", "lit_bits", "lit_dict", "lit_arr", "term_new"}
 # argument kinds each call needs (checked before calling, so that a missing object is a modelled "err:badref")
 ARGK = {"lit_terms": None, "circ_new": ["oplist|list"], "circ_add": ["circuit", "circuit"], "circ_add_op": ["circuit"],
         "circ_bind": ["circuit"], "circ_inverse": ["circuit"], "circ_controlled": ["circuit"],
@@ -347,10 +414,10 @@ ARGK = {"lit_terms": None, "circ_new": ["oplist|list"], "circ_add": ["circuit", 
         "term_pow": ["term"], "sum_new": ["termlist|list"], "sum_add": ["sum", "sum|term"], "sum_mul": ["sum", "sum|term"],
         "sum_rmul": ["sum"], "sum_pow": ["sum"], "sum_simplify": ["sum"], "op_conj": ["sum|term"],
         "meas_new": ["bitlist|list"], "meas_distribution": ["meas"], "meas_representing": ["dist"],
-        "dist_new": ["ddict"], "dist_sub": ["dist"], "wf_new": ["arr"], "wf_bind": ["wf"],
+        "dist_new": ["ddict"], "dist_sub": ["dist"], "wf_new": ["arr|symvec"], "wf_bind": ["wf"],
         "meas_counts": ["meas"], "wf_probs": ["wf"]}
 REJECT = {NotImplementedError: "err:notimpl", ValueError: "err:value", RuntimeError: "err:runtime",
-          TypeError: "err:type"}  # order matters: NotImplementedError is a RuntimeError
+          TypeError: "err:type", IndexError: "err:index"}  # order matters: NotImplementedError is a RuntimeError
 
 
 class _BadRef(Exception):
@@ -366,6 +433,8 @@ def _inline(L, call):
         return {"map": {L.sympy.Symbol(s): _num(v) for s, v in call["map"]}}
     if op == "dist_sub":
         return {"qubits": list(call["qubits"])}
+    if op == "wf_bind":
+        return {"map": {L.sympy.Symbol(s): _num(v) for s, v in call.get("map", [])}}
     if op == "meas_from_counts":
         return {"counts": {"".join(str(b) for b in k): n for k, n in call["counts"]}}
     if op == "report" and call["kind"] == "distance":
@@ -375,10 +444,13 @@ def _inline(L, call):
     return {}
 
 
-def _apply(L, pool, call, inl, tmpdir):
+def _apply(L, pool, call, inl, tmpdir, limit=None):
+    """one call on the live pool.  `limit`: how many pool slots exist for this call (the re-ordered runs keep a
+    pre-sized pool; a reference beyond the objects that existed when the call was made stays a bad reference)"""
     op = call["op"]
     idx = call.get("args", [])
-    if any(i >= len(pool) or pool[i] is None for i in idx):
+    limit = len(pool) if limit is None else limit
+    if any(i >= limit or pool[i] is None for i in idx):
         raise _BadRef()
     a = [pool[i] for i in idx]
     need = ARGK.get(op)
@@ -396,10 +468,16 @@ def _apply(L, pool, call, inl, tmpdir):
         return list(a)
     if op == "lit_bits":
         return [tuple(b) for b in call["bits"]]
-    if op == "lit_dict":
-        return {tuple(k): _num(v) for k, v in call["d"]}
+    if op == "lit_symvec":   # amplitudes that are sympy expressions in theta / phi
+        loc = {n: L.sympy.Symbol(n) for n in SYMS}
+        return [L.sympy.sympify(e, locals=loc) for e in call["exprs"]]
+    if op == "lit_dict":  # keys: tuples, bit strings ("011") or comma-separated strings ("10,3")
+        return {(tuple(k) if isinstance(k, list) else k): _num(v) for k, v in call["d"]}
     if op == "lit_arr":
-        return np.array([complex(_num(x[0]), _num(x[1])) for x in call["a"]], dtype=complex)
+        dt = call.get("dtype", "complex128")
+        if dt == "float64":
+            return np.array([_num(x[0]) for x in call["a"]], dtype=np.float64)
+        return np.array([complex(_num(x[0]), _num(x[1])) for x in call["a"]], dtype=dt)
     if op == "circ_new":
         return C.Circuit(a[0], call.get("nq")) if call.get("nq") is not None else C.Circuit(a[0])
     if op == "circ_add":
@@ -413,7 +491,18 @@ def _apply(L, pool, call, inl, tmpdir):
     if op == "circ_controlled":
         return a[0].controlled(call["k"])
     if op == "term_new":
-        return O.PauliTerm({int(q): p for q, p in call["ops"]}, _coef(call["coef"]))
+        cf = _coef(call["coef"])
+        if call.get("ctype") == "int":
+            cf = int(cf)
+        elif call.get("ctype") == "complex":
+            cf = complex(cf)
+        form = call.get("form", "dict")
+        if form == "str":  # the string constructor: "<coefficient>*X0*Y1"
+            return O.PauliTerm("*".join([repr(cf) if not isinstance(cf, complex) else "(" + repr(cf).strip("()") + ")"]
+                                        + [f"{p}{int(q)}" for q, p in call["ops"]]))
+        if form == "iter":
+            return O.PauliTerm.from_iterable([(p, int(q)) for q, p in call["ops"]], cf)
+        return O.PauliTerm({int(q): p for q, p in call["ops"]}, cf)
     if op == "term_copy":
         return a[0].copy(_coef(call["coef"])) if call.get("coef") is not None else a[0].copy()
     if op == "term_mul":
@@ -460,7 +549,7 @@ def _apply(L, pool, call, inl, tmpdir):
     if op == "wf_new":
         return L.wfm.Wavefunction(a[0])
     if op == "wf_bind":
-        return a[0].bind({})
+        return a[0].bind(inl["map"])
     if op == "meas_counts":
         return a[0].get_counts()
     if op == "wf_probs":
@@ -478,8 +567,8 @@ def _report(L, kind, a, call, inl, tmpdir):
         return C.to_dict(a[0]) if k0 == "circuit" else O.convert_op_to_dict(a[0])
     if kind == "to_unitary":
         return np.asarray(a[0].to_unitary(), dtype=complex)
-    if kind == "str":
-        return [str(a[0]), repr(a[0])]
+    if kind == "str":  # (a Wavefunction has no __repr__ of its own: the default one prints the address)
+        return [str(a[0]), repr(a[0]) if k0 != "wf" else ""]
     if kind == "eq":
         return bool(a[0] == a[1])
     if kind == "free_symbols":
@@ -574,96 +663,467 @@ def _run_evalframe(case):
     c = oqc.Circuit(ops, n_qubits=case["n"])
     v0 = np.array([complex(float(unrat(a)), float(unrat(b))) for a, b in case["v"]], dtype=case.get("dtype", "complex128"))
     out = {"evalframe": True}
-    v = v0.copy()
-    r1 = SymbolicSimulator().get_wavefunction(c, initial_state=v).amplitudes.copy()
+
+    def fresh_v():
+        if case.get("strided"):   # a non-contiguous view of a larger buffer: an out= / in-place write would land in the buffer
+            base = np.zeros(2 * len(v0), dtype=v0.dtype)
+            base[::2] = v0
+            return base[::2]
+        return v0.copy()
+
+    v = fresh_v()
+    sim = SymbolicSimulator()   # one long-lived simulator for the repeated evaluations, a new one for the last
+    w1 = sim.get_wavefunction(c, initial_state=v)
+    r1 = w1.amplitudes.copy()
     out["sim_arg_intact"] = bool(np.array_equal(v, v0))
-    r2 = SymbolicSimulator().get_wavefunction(c, initial_state=v).amplitudes
-    out["sim_repeatable"] = bool(np.allclose(r1, r2, atol=1e-12))
-    v = v0.copy()
+    # the caller edits the state it got back: the vector it passed in must not change with it
+    if isinstance(w1.amplitudes, np.ndarray) and w1.amplitudes.flags.writeable:
+        w1.amplitudes[...] = 7
+    out["sim_result_own"] = bool(np.array_equal(v, v0))
+    r2 = sim.get_wavefunction(c, initial_state=v).amplitudes.copy()
+    r3 = SymbolicSimulator().get_wavefunction(c, initial_state=v).amplitudes
+    out["sim_repeatable"] = bool(np.array_equal(r1, r2) and np.array_equal(r1, r3))
+    out["sim_arg_intact"] = out["sim_arg_intact"] and bool(np.array_equal(v, v0))
+    v = fresh_v()
     for i, op in enumerate(ops):
         w = op.apply(v)
         if not np.array_equal(v, v0):
             out["apply_mutates"] = i
             break
+        w2 = op.apply(v)
+        if not np.array_equal(np.asarray(w), np.asarray(w2)):
+            out["apply_unrepeatable"] = i
+            break
     return out
 
 
+# ------------------------------------------------------------------ deep observation, poisoning, re-ordered runs
+def _guard(f):
+    try:
+        return f()
+    except tuple(REJECT) as e:
+        return next(v for k, v in REJECT.items() if isinstance(e, k))
+    except Exception as e:
+        return f"exc:{type(e).__name__}: {e}"[:120]
+
+
+def _deep(L, o, ids):
+    """everything the argument-free public readers of an object return (conversions included).  Reading it is itself a
+    sequence of value-returning calls, so it may be taken at any time without changing any later observation."""
+    k = _kind(L, o)
+    if k == "none":
+        return None
+    base = _strict(L, o, ids)
+    G, O, C = _guard, L.ops, L.circuits
+    if k == "circuit":
+        return [base, G(lambda: common.canon(C.to_dict(o))), G(lambda: _strict(L, o.inverse(), ids)),
+                G(lambda: [str(x) for x in o.collect_custom_gate_definitions()])]
+    if k == "term":
+        return [base, G(lambda: _strict(L, o.circuit, ids)), G(lambda: [[p, int(q)] for p, q in o]), sorted(o.qubits),
+                bool(o.is_ising), bool(o.is_constant), int(o.n_qubits), len(o), G(lambda: common.canon(O.convert_op_to_dict(o))),
+                G(lambda: _strict(L, o.copy(), ids))]
+    if k == "sum":
+        return [base, G(lambda: [_strict(L, c, ids) for c in o.circuits]), bool(o.is_ising), bool(o.is_constant),
+                G(lambda: int(o.n_qubits)), len(o), G(lambda: common.canon(O.convert_op_to_dict(o))),
+                G(lambda: _strict(L, o.simplify(), ids)), G(lambda: _num_strict(o.constant_term))]
+    if k == "meas":
+        return [base, G(lambda: [[a, int(b)] for a, b in o.get_counts().items()]),
+                G(lambda: _strict(L, o.get_distribution(), ids))]
+    if k == "dist":
+        return [base, G(lambda: int(o.get_number_of_subsystems()))]
+    if k == "wf":
+        return [base, G(lambda: _rs(L, o.get_probabilities(), ids)), G(lambda: _rs(L, o.get_outcome_probs(), ids)),
+                G(lambda: str(o)), G(lambda: int(o.n_qubits)), G(lambda: [str(x) for x in o.free_symbols])]
+    return [base]
+
+
+def _deep_pool(L, pool):
+    ids = {id(x): i for i, x in enumerate(pool) if x is not None}
+    return [_deep(L, o, ids) for o in pool]
+
+
+def _first_diff(a, b, path=""):
+    """where two observations differ (for the message)"""
+    if type(a) is type(b) and isinstance(a, list) and len(a) == len(b):
+        for i, (x, y) in enumerate(zip(a, b)):
+            if x != y:
+                return _first_diff(x, y, f"{path}[{i}]")
+    return f"at {path or 'top'}: {common.canon(a)[:200]} vs {common.canon(b)[:200]}"
+
+
+def _poison(L, r, seen=None):
+    """the caller edits what a report handed to it (containers and arrays only; library objects are left alone).
+    Returns True if anything was edited."""
+    np = L.np
+    seen = set() if seen is None else seen
+    if id(r) in seen:
+        return False
+    seen.add(id(r))
+    if isinstance(r, dict):
+        done = False
+        for v in list(r.values()):
+            done = _poison(L, v, seen) or done
+        if r:
+            r.pop(next(iter(r)))
+        r["<edited>"] = -1
+        return True
+    if isinstance(r, list):
+        for v in list(r):
+            _poison(L, v, seen)
+        r.reverse()
+        r.append("<edited>")
+        return True
+    if isinstance(r, tuple):
+        return any([_poison(L, v, seen) for v in r])
+    if isinstance(r, np.ndarray):
+        if r.flags.writeable and r.size:
+            try:
+                r[...] = 7 if r.dtype != object else 7
+            except (TypeError, ValueError):
+                return False
+            return True
+        return False
+    if hasattr(r, "toarray") and hasattr(r, "data") and isinstance(getattr(r, "data", None), np.ndarray):  # scipy sparse
+        return _poison(L, r.data, seen)
+    if hasattr(r, "values") and hasattr(r, "correlations"):  # ExpectationValues / Parities
+        done = _poison(L, r.values, seen)
+        done = _poison(L, r.correlations, seen) or done
+        done = _poison(L, getattr(r, "estimator_covariances", None), seen) or done
+        return done
+    if isinstance(r, L.sympy.MutableDenseMatrix) and r.rows and r.cols:
+        r[0, 0] = 12345
+        return True
+    return False
+
+
+# the listed operations that return a NEW object (constructors and Wavefunction.bind, which returns its receiver, are not among them)
+NEW_OBJECT_OPS = {"circ_add", "circ_add_op", "circ_bind", "circ_inverse", "circ_controlled", "term_copy", "term_mul",
+                  "term_scale", "term_add", "term_pow", "sum_add", "sum_mul", "sum_rmul", "sum_pow", "sum_simplify", "op_conj",
+                  "meas_distribution", "dist_sub"}
+
+
+def _poison_object(L, r):
+    """the caller edits, through PUBLIC attributes only, the top-level containers of an object a listed operation returned
+    (never the objects inside them, which a result may legitimately share with the arguments)"""
+    k = _kind(L, r)
+    if k == "circuit":
+        ops = r.operations
+        if isinstance(ops, list):
+            ops.extend(ops[:1] or [L.circuits.X(0)])
+            ops.reverse()
+            return True
+        return False
+    if k == "term":
+        r.coefficient = 12345.0
+        return True
+    if k == "sum":
+        if isinstance(r.terms, list):
+            r.terms.reverse()
+            r.terms.append(L.ops.PauliTerm("Z7", 0.125))
+            return True
+        return False
+    if k == "dist":
+        d = r.distribution_dict
+        if d:
+            d.pop(next(iter(d)))
+        d[(7,)] = 0.125
+        return True
+    if k == "meas":
+        if isinstance(r.bitstrings, list):
+            r.bitstrings.append((7,))
+            return True
+    return False
+
+
+def _exec(L, pool, call, inl, tmpdir, limit=None):
+    try:
+        return ("ok", _apply(L, pool, call, inl, tmpdir, limit)), None
+    except _BadRef:
+        return ("err", "err:badref"), None
+    except tuple(REJECT) as e:
+        return ("err", next(v for k, v in REJECT.items() if isinstance(e, k))), str(e)[:80]
+    except Exception as e:  # not a rejection: reported by the oracle
+        return ("exc", f"exc:{type(e).__name__}: {e}"[:160]), None
+
+
+def _ids_upto(pool, limit):
+    return {id(x): i for i, x in enumerate(pool[:limit]) if x is not None}
+
+
+def _outcome_strict(L, res, ids):
+    return _rs(L, res[1], ids) if res[0] == "ok" else [res[0], res[1]]
+
+
+def _obj_calls(calls):
+    return [i for i, c in enumerate(calls) if c["op"] in OBJECT_OPS]
+
+
+def _run_lazy(L, calls, tmpdir, edit=False):
+    """the same history with the object-producing calls in ANOTHER dependency-respecting order (the last object and what
+    it needs first), every call made once, nothing read in between; then every report, last one first.
+    If each call leaves its arguments as they were and equal calls give equal results, nothing can tell the difference."""
+    objc = _obj_calls(calls)
+    slot = {ci: k for k, ci in enumerate(objc)}
+    nbefore, n = [], 0
+    for c in calls:
+        nbefore.append(n)
+        n += c["op"] in OBJECT_OPS
+    pool = [None] * len(objc)
+    done, order = set(), []
+
+    def visit(ci):
+        if ci in done:
+            return
+        done.add(ci)
+        for a in calls[ci].get("args", []):
+            if a < slot[ci]:
+                visit(objc[a])
+        order.append(ci)
+
+    for ci in reversed(objc):
+        visit(ci)
+    for ci in order:
+        res, _ = _exec(L, pool, calls[ci], _inline(L, calls[ci]), tmpdir, limit=slot[ci])
+        pool[slot[ci]] = res[1] if res[0] == "ok" else None
+    reports = {}
+    for ci in reversed(range(len(calls))):
+        if calls[ci]["op"] in OBJECT_OPS:
+            continue
+        res, _ = _exec(L, pool, calls[ci], _inline(L, calls[ci]), tmpdir, limit=nbefore[ci])
+        reports[ci] = _outcome_strict(L, res, _ids_upto(pool, nbefore[ci]))
+    return pool, reports, None
+
+
+def _run_eager(L, calls, tmpdir, edit=True):
+    """the same history in the given order, every call made once, and after every call EVERYTHING readable of its
+    arguments and of its result is read (all conversions, counts, probabilities ...).
+    Result poisoning is tried here too: the caller edits the containers / arrays a report returned IN PLACE and makes
+    the same call again - no pool object may change with the edit and the call must answer as before.
+    Returns (pool, reports, poison); after a successful poisoning the run stops (its state is no longer comparable)."""
+    pool, reports = [], {}
+    for ci, call in enumerate(calls):
+        n0 = len(pool)
+        inl = _inline(L, call)
+        res, _ = _exec(L, pool, call, inl, tmpdir)
+        if call["op"] in OBJECT_OPS:
+            if edit and call["op"] in NEW_OBJECT_OPS and res[0] == "ok" and not any(res[1] is x for x in pool):
+                # the caller edits the new object; the arguments must not change with it and the same call must still
+                # give what it gave before (it is the SECOND, untouched result that stays in the pool)
+                ids0 = _ids_upto(pool, n0)
+                s1 = _outcome_strict(L, res, ids0)
+                before = _snap_pool(L, pool)
+                if _poison_object(L, res[1]):
+                    after = _snap_pool(L, pool)
+                    ch = _diff(before, after)
+                    if ch:
+                        return None, reports, {"call": ci, "reaches": ch[0], "diff": _first_diff(before[ch[0]], after[ch[0]])}
+                    res, _ = _exec(L, pool, call, inl, tmpdir)
+                    s3 = _outcome_strict(L, res, ids0)
+                    if s3 != s1:
+                        return None, reports, {"call": ci, "first": common.canon(s1)[:300], "again": common.canon(s3)[:300]}
+            pool.append(res[1] if res[0] == "ok" else None)
+        else:
+            ids0 = _ids_upto(pool, n0)
+            reports[ci] = s1 = _outcome_strict(L, res, ids0)
+            if edit and res[0] == "ok":
+                before = _snap_pool(L, pool)
+                if _poison(L, res[1]):
+                    after = _snap_pool(L, pool)
+                    ch = _diff(before, after)
+                    if ch:
+                        return None, reports, {"call": ci, "reaches": ch[0], "diff": _first_diff(before[ch[0]], after[ch[0]])}
+                    res3, _ = _exec(L, pool, call, inl, tmpdir)
+                    s3 = _outcome_strict(L, res3, ids0)
+                    if s3 != s1:
+                        return None, reports, {"call": ci, "first": common.canon(s1)[:300], "again": common.canon(s3)[:300]}
+        ids = {id(x): i for i, x in enumerate(pool) if x is not None}
+        for i in set(call.get("args", [])) | ({len(pool) - 1} if call["op"] in OBJECT_OPS else set()):
+            if 0 <= i < len(pool):
+                _deep(L, pool[i], ids)
+    return pool, reports, None
+
+
+def _edit_raw_containers(L, pool):
+    """epilogue: the caller edits the raw list / dict it once handed to a COPYING constructor (Circuit: list(operations),
+    MeasurementOutcomeDistribution: re-keyed dict).  No circuit and no distribution may change."""
+    watch = [i for i, o in enumerate(pool) if _kind(L, o) in ("circuit", "dist")]
+    if not watch:
+        return None
+    ids = {id(x): i for i, x in enumerate(pool) if x is not None}
+    before = {i: _strict(L, pool[i], ids) for i in watch}
+    edited = []
+    for i, o in enumerate(pool):
+        k = _kind(L, o)
+        if k == "oplist":
+            o.append(o[0])
+            o.reverse()
+            edited.append(i)
+        elif k == "ddict" and o:
+            first = next(iter(o))
+            o[first] = o[first] + 1.0
+            if len(o) > 1:
+                o.pop(list(o)[-1])
+            edited.append(i)
+    if not edited:
+        return None
+    for i in watch:
+        after = _strict(L, pool[i], ids)
+        if after != before[i]:
+            return {"pool": i, "kind": before[i][0], "edited": edited, "diff": _first_diff(before[i], after)}
+    return None
+
+
 def run_impl(case):
+    import warnings
+    with warnings.catch_warnings():
+        warnings.simplefilter("ignore")   # (numpy's "invalid value in equal" on symbolic arrays, "not normalized" ...)
+        return _run_impl(case)
+
+
+def _run_impl(case):
     if case.get("kind") == "evalframe":
         return _run_evalframe(case)
     L = _lib()
+    calls = case["calls"]
     pool, steps = [], []
+    a_reports, memo, producer, last = {}, {}, [], [None]
     with tempfile.TemporaryDirectory(prefix="c20_") as tmpdir:
-        for call in case["calls"]:
+        for ci, call in enumerate(calls):
             op = call["op"]
             rec = {"op": op if op != "report" else "report:" + call["kind"]}
             results = []
-            appended = False
-            for attempt in (0, 1):
-                before = _snap_pool(L, pool)
-                inl = _inline(L, call)
-                inl_before = repr(inl)
-                try:
-                    r = _apply(L, pool, call, inl, tmpdir)
-                    res = ("ok", r)
-                except _BadRef:
-                    res = ("err", "err:badref")
-                except tuple(REJECT) as e:
-                    res = ("err", next(v for k, v in REJECT.items() if isinstance(e, k)))
-                    rec.setdefault("msg", str(e)[:80])
-                except Exception as e:  # not a rejection: reported by the oracle
-                    res = ("exc", f"exc:{type(e).__name__}: {e}"[:160])
-                results.append(res)
-                after = _snap_pool(L, pool)
+            n0 = len(pool)
+            inl = _inline(L, call)  # ONE set of inline arguments for all repetitions of the call: "the same arguments"
+            inl_before = repr(inl)
+
+            def attempt(tag):
+                # (nothing but snapshots happens between two calls: while the pool's membership is the same, the snapshot
+                #  taken after one call serves as the one before the next)
+                before = last[0] if last[0] is not None else _snap_pool(L, pool)
+                res, msg = _exec(L, pool, call, inl, tmpdir, limit=n0)
+                if msg is not None:
+                    rec.setdefault("msg", msg)
+                after = last[0] = _snap_pool(L, pool)
                 ch = _diff(before, after)
                 if ch and "changed" not in rec:
                     rec["changed"] = [{"pool": i, "before": before[i], "after": after[i]} for i in ch[:3]]
-                    rec["on_call"] = attempt + 1
+                    rec["on_call"] = tag
                 if repr(inl) != inl_before and "inline_changed" not in rec:
-                    rec["inline_changed"] = {"before": inl_before[:200], "after": repr(inl)[:200]}
-                if attempt == 0 and op in OBJECT_OPS:
-                    # the first result is live while the call is repeated: it must not be touched either
-                    pool.append(res[1] if res[0] == "ok" else None)
-                    appended = True
-                if op in LITERALS:
-                    results.append(res)
-                    break
+                    rec["inline_changed"] = {"before": inl_before[:200], "after": repr(inl)[:200], "on_call": tag}
+                return res
+
+            results.append(attempt(1))
+            if op in OBJECT_OPS:
+                # the first result is live while the call is repeated: it must not be touched either
+                pool.append(results[0][1] if results[0][0] == "ok" else None)
+                producer.append(ci)
+                last[0] = None
+            results.append(results[0] if op in LITERALS else attempt(2))
             (t1, r1), (t2, r2) = results
-            if t1 == "ok" and t2 == "ok":
-                s1, s2 = _result_strict(L, r1, pool), _result_strict(L, r2, pool)
-                if s1 != s2:
-                    rec["twice"] = {"first": common.canon(s1)[:300], "second": common.canon(s2)[:300]}
-            elif (t1, r1) != (t2, r2):
-                rec["twice"] = {"first": str(r1)[:200], "second": str(r2)[:200]}
+            ids0 = _ids_upto(pool, n0) if op not in OBJECT_OPS else {id(x): i for i, x in enumerate(pool) if x is not None}
+            s1, s2 = _outcome_strict(L, results[0], ids0), _outcome_strict(L, results[1], ids0)
+            if s1 != s2:
+                rec["twice"] = {"first": common.canon(s1)[:300], "second": common.canon(s2)[:300]}
             if t1 == "ok":
                 if op in OBJECT_OPS:
                     rec["res"] = {"obj": _model_obs(L, r1)}
                 elif op == "meas_counts":
                     rec["res"] = {"counts": [[[int(c) for c in k], int(v)] for k, v in r1.items()]}
                 elif op == "wf_probs":
-                    rec["res"] = {"probs": [rat(Fraction(float(x))) for x in r1.tolist()]}
+                    if r1.dtype == object or r1.ndim != 1:   # symbolic or bound-symbolic wavefunction (oracle only)
+                        rec["res"] = {"report": common.canon(s1)[:400]}
+                    else:
+                        rec["res"] = {"probs": [rat(Fraction(float(x))) for x in r1.tolist()]}
                 else:
-                    rec["res"] = {"report": common.canon(_result_strict(L, r1, pool))[:400]}
+                    rec["res"] = {"report": common.canon(s1)[:400]}
             else:
                 rec["res"] = r1
-            assert appended == (op in OBJECT_OPS)
+            if op not in OBJECT_OPS:
+                a_reports[ci] = s1
+            # an identical call made earlier in the history (same pool arguments, same inline values)
+            if op not in LITERALS:
+                key = common.canon(call)
+                if key in memo:
+                    cj, sj = memo[key]
+                    now = s1 if op not in OBJECT_OPS else _outcome_strict(L, results[0], _ids_upto(pool, n0))
+                    if sj != now:
+                        rec["replay"] = {"earlier_call": cj, "diff": _first_diff(sj, now)}
+                else:
+                    memo[key] = (ci, s1 if op not in OBJECT_OPS else _outcome_strict(L, results[0], _ids_upto(pool, n0)))
             steps.append(rec)
         final = [_model_obs(L, o) for o in pool]
-    return {"steps": steps, "pool": final}
+        out = {"steps": steps, "pool": final}
+        # ---- history independence: the final deep observation of every pool object, three ways
+        if not any(k in st for st in steps for k in ("changed", "inline_changed", "twice")):
+            deep_a = _deep_pool(L, pool)
+            # equal calls at different points of the history: their results must be indistinguishable to the end
+            seen = {}
+            for k, ci in enumerate(producer):
+                if calls[ci]["op"] in LITERALS:
+                    continue
+                key = common.canon(calls[ci])
+                if key in seen and deep_a[seen[key]] != deep_a[k] and "history" not in out:
+                    out["history"] = {"how": "replay", "pool": k, "op": calls[ci]["op"], "call": ci,
+                                      "diff": f"pool objects {seen[key]} and {k} are results of the same call "
+                                              + _first_diff(deep_a[seen[key]], deep_a[k])}
+                seen.setdefault(key, k)
+            # every FRESH_EVERY-th history (and every replayed one) the re-ordered run is made on a freshly executed copy
+            # of the library: module-level memo tables / lru_caches filled by anything earlier in this process are empty there
+            global _CASE_NO
+            fresh = _CASE_NO % FRESH_EVERY == 0
+            _CASE_NO += 1
+            for how, runner in (("lazy", _run_lazy), ("eager", _run_eager)):
+                if "history" in out:
+                    break
+                Lx = _fresh_lib() if (fresh and how == "lazy") else L
+                pool_x, reports_x, poison = runner(Lx, calls, tmpdir)
+                if poison:
+                    o = calls[poison["call"]]["op"]
+                    poison["op"] = o if o != "report" else "report:" + calls[poison["call"]]["kind"]
+                    out["poison"] = poison
+                    # the edit went through: that run's state is spoilt; read-everything once more without editing
+                    pool_x, reports_x, _ = runner(Lx, calls, tmpdir, edit=False)
+                for ci in sorted(reports_x):
+                    if reports_x.get(ci) != a_reports[ci]:
+                        o = calls[ci]["op"]
+                        out["history"] = {"how": how, "fresh": Lx is not L, "call": ci, "op": o if o != "report" else "report:" + calls[ci]["kind"],
+                                          "diff": _first_diff(a_reports[ci], reports_x.get(ci))}
+                        break
+                if "history" in out or pool_x is None:
+                    break
+                deep_x = _deep_pool(Lx, pool_x)
+                for k, (x, y) in enumerate(zip(deep_a, deep_x)):
+                    if x != y:
+                        out["history"] = {"how": how, "fresh": Lx is not L, "pool": k, "op": calls[producer[k]]["op"],
+                                          "call": producer[k], "diff": _first_diff(x, y)}
+                        break
+            if "history" not in out:
+                sh = _edit_raw_containers(L, pool)
+                if sh:
+                    out["shares"] = sh
+    return out
 
 
 # ------------------------------------------------------------------ model side
 def requests(case, out):
     if "steps" not in out:
         return []  # evalframe cases are judged by the snapshot oracle only
+    if any(c["op"] == "lit_symvec" for c in case["calls"]):
+        return []  # symbolic wavefunctions are outside the model: oracle only
     calls = []
     for call, st in zip(case["calls"], out["steps"]):
-        c = {k: v for k, v in call.items() if k not in ("seed", "left", "measure", "bessel")}
+        c = {k: v for k, v in call.items() if k not in ("seed", "left", "measure", "bessel")}   # (outside the model)
         if call["op"] == "meas_representing":
             res = st.get("res")
             c["samples"] = res["obj"]["bs"] if isinstance(res, dict) and res.get("obj") else []
         if call["op"] == "report":
             c = {"op": "report", "kind": call["kind"], "args": call.get("args", [])}
+        if call["op"] == "lit_dict":   # the model's dicts are keyed by outcomes, however the caller wrote them
+            c = {"op": "lit_dict", "d": [[_key_bits(k), v] for k, v in call["d"]]}
+        if call["op"] == "lit_arr":
+            c = {"op": "lit_arr", "a": call["a"]}
+        if call["op"] == "term_new":
+            c = {"op": "term_new", "ops": call["ops"], "coef": call["coef"]}
         calls.append(c)
     return [("history", {"calls": calls})]
 
@@ -706,6 +1166,11 @@ def oracle(case, out):
     if isinstance(out, dict) and out.get("evalframe"):
         if not out["sim_arg_intact"]:
             return ("mutates:evaluate_circuit", "SymbolicSimulator.get_wavefunction(circuit, initial_state=v) modified v")
+        if not out.get("sim_result_own", True):
+            return ("shares:evaluate_circuit", "editing the amplitudes of the wavefunction SymbolicSimulator.get_wavefunction(circuit, "
+                    "initial_state=v) returned changed the caller's vector v (circuit with at least one operation)")
+        if "apply_unrepeatable" in out:
+            return ("unrepeatable:operation_apply", f"operation #{out['apply_unrepeatable']}.apply(v) twice on the same v gave different vectors")
         if not out["sim_repeatable"]:
             return ("unrepeatable:evaluate_circuit", "evaluating the same circuit twice on the same initial state gave different states")
         if "apply_mutates" in out:
@@ -725,8 +1190,37 @@ def oracle(case, out):
         if "twice" in st:
             return ("unrepeatable:" + op, f"call {i} ({op}) made twice on the same arguments gave different results: "
                     f"{st['twice']}")
+        if "replay" in st:
+            return ("unrepeatable:" + op, f"call {i} ({op}) repeats call {st['replay']['earlier_call']} on the same arguments "
+                    f"(only value-returning calls in between) but gave a different result {st['replay']['diff']}")
         if isinstance(st["res"], str) and st["res"].startswith("exc:"):
             return ("raise:" + op, f"call {i} ({op}) raised {st['res']}")
+    if "history" in out:
+        h = out["history"]
+        what = {"lazy": "when the object-producing calls are made once, in another dependency-respecting order, with nothing read "
+                        "in between and all reports made afterwards (last first)",
+                "eager": "when every call is made once and everything readable of its arguments and result is read right after it",
+                "replay": "although both come from the same call on the same arguments"}[h["how"]]
+        if h.get("fresh"):
+            what += " (there: on a freshly loaded copy of the library, i.e. with every module-level cache empty)"
+        where = f"the result of call {h['call']} ({h['op']})" + (f" = pool object {h['pool']}" if "pool" in h else "")
+        return ("history:" + h["op"], f"{where} is observably different {what}: {h['diff']}  -- so a value-returning call of this "
+                "history left something behind that a later call can see (a cache on an argument, a shared container, a hidden "
+                "field or module-level state)")
+    if "shares" in out:
+        sh = out["shares"]
+        op = "circ_new" if sh["kind"] == "circuit" else "dist_new"
+        return ("shares:" + op, f"after the history the caller edited its own raw containers (pool objects {sh['edited']}) in place; "
+                f"pool object {sh['pool']} ({sh['kind']}) changed with them {sh['diff']}: it is not a value of its own")
+    if "poison" in out:
+        po = out["poison"]
+        i, op = po["call"], po["op"]
+        if "reaches" in po:
+            return ("shares:" + op, f"call {i} ({op}, args {case['calls'][i].get('args', [])}) returned data that is shared with "
+                    f"pool object {po['reaches']}: editing the RESULT in place changed that object {po['diff']}")
+        return ("unrepeatable-after-edit:" + op, f"call {i} ({op}, args {case['calls'][i].get('args', [])}): after the caller edited "
+                f"the returned data in place, the same call on the same arguments gave a different result: "
+                f"first {po['first']} again {po['again']}")
     return None
 
 
@@ -746,13 +1240,47 @@ def nontrivial(case):
 
 def distribution(cases, outs):
     ops, errs, lens, shared = {}, {}, {}, 0
+    feat = {"repeated_identical_calls": 0, "dist_sub_negative_index": 0, "dict_string_keys": 0, "dict_nonbinary_outcomes": 0,
+            "dict_inexact_sum": 0, "amplitudes_inexact_norm": 0, "amplitudes_real_or_single_dtype": 0,
+            "term_int_or_complex_coef": 0, "term_from_string_or_iterable": 0, "oplist_width_ge_9": 0,
+            "symbolic_wavefunctions": 0}
     for c, o in zip(cases, outs):
+        if "calls" not in c:
+            continue
+        seen = set()
+        for call in c["calls"]:
+            k = common.canon(call)
+            op = call["op"]
+            if op not in LITERALS:
+                feat["repeated_identical_calls"] += k in seen
+                seen.add(k)
+            if op == "dist_sub":
+                feat["dist_sub_negative_index"] += any(q < 0 for q in call["qubits"])
+            elif op == "lit_dict":
+                feat["dict_string_keys"] += any(isinstance(kk, str) for kk, _ in call["d"])
+                feat["dict_nonbinary_outcomes"] += any(max(_key_bits(kk), default=0) > 1 for kk, _ in call["d"])
+                tot = sum(Fraction(v) for _, v in call["d"])
+                feat["dict_inexact_sum"] += tot != 1 and abs(tot - 1) < Fraction(1, 10 ** 10)
+            elif op == "lit_arr":
+                p = sum(Fraction(x) ** 2 + Fraction(y) ** 2 for x, y in call["a"])
+                feat["amplitudes_inexact_norm"] += p != 1 and abs(p - 1) < Fraction(1, 10 ** 5)
+                feat["amplitudes_real_or_single_dtype"] += "dtype" in call
+            elif op == "term_new":
+                feat["term_int_or_complex_coef"] += "ctype" in call
+                feat["term_from_string_or_iterable"] += "form" in call
+            elif op == "lit_ops":
+                feat["oplist_width_ge_9"] += any(max(x["q"]) >= 8 for x in call["ops"])
+            elif op == "lit_symvec":
+                feat["symbolic_wavefunctions"] += 1
+    for c, o in zip(cases, outs):
+        if "calls" not in c:
+            continue
         lens[len(c["calls"])] = lens.get(len(c["calls"]), 0) + 1
         for st in o.get("steps", []):
             ops[st["op"]] = ops.get(st["op"], 0) + 1
             if isinstance(st["res"], str):
                 errs[st["res"][:11]] = errs.get(st["res"][:11], 0) + 1
-    return {"calls_by_op": dict(sorted(ops.items())), "rejections": errs,
+    return {"calls_by_op": dict(sorted(ops.items())), "rejections": errs, "input_features": feat,
             "history_lengths": dict(sorted(lens.items())),
             "total_calls": sum(ops.values())}
 
@@ -816,6 +1344,47 @@ def corpus():
             {"op": "report", "kind": "gate_apply", "args": [0], "gop": X0}, {"op": "report", "kind": "flip", "args": [1]},
             {"op": "lit_arr", "a": [["1/2", 0], ["1/2", 0]]}, {"op": "wf_new", "args": [5]},
             {"op": "report", "kind": "sample", "args": [1], "n": 5, "seed": 4}]},
+        # a conversion (.circuit / .circuits caches on the operator) between two identical products: the products, and
+        # what THEY convert to, must not depend on whether the factor was converted before
+        {"kind": "pauli", "calls": [
+            {"op": "term_new", "ops": [[0, "X"]], "coef": [2, 0], "ctype": "int"},
+            {"op": "term_new", "ops": [[1, "Z"]], "coef": [3, 0], "form": "str"},
+            {"op": "term_mul", "args": [0, 1]}, {"op": "report", "kind": "op_circuits", "args": [0]},
+            {"op": "term_mul", "args": [0, 1]}, {"op": "report", "kind": "op_circuits", "args": [3]},
+            {"op": "term_new", "ops": [[0, "Y"]], "coef": [0, 1]}, {"op": "term_mul", "args": [0, 4]},
+            {"op": "term_add", "args": [0, 1]}, {"op": "report", "kind": "op_circuits", "args": [6]},
+            {"op": "sum_mul", "args": [6, 6]}, {"op": "report", "kind": "op_circuits", "args": [7]},
+            {"op": "term_pow", "args": [0], "n": 3}, {"op": "report", "kind": "props", "args": [6]},
+            {"op": "sum_mul", "args": [6, 6]}, {"op": "term_copy", "args": [0]}, {"op": "report", "kind": "op_circuits", "args": [10]}]},
+        # qubit indices counted from the end (legal tuple indexing), the same index list on two distributions, outcomes
+        # written as strings, probabilities that sum to 1 only up to rounding
+        {"kind": "dist", "calls": [
+            {"op": "lit_dict", "d": [["001", "1/4"], ["0,1,1", "1/4"], [[1, 0, 0], "1/2"]]},
+            {"op": "dist_new", "args": [0], "normalize": True}, {"op": "dist_sub", "args": [1], "qubits": [-1, 0]},
+            {"op": "dist_sub", "args": [1], "qubits": [0, -2]}, {"op": "dist_sub", "args": [1], "qubits": [-3, -1]},
+            {"op": "dist_sub", "args": [1], "qubits": [-1, 2]}, {"op": "dist_sub", "args": [1], "qubits": [-4]},
+            {"op": "lit_dict", "d": [[[0, 0], "3602879701896397/36028797018963968"], [[0, 1], "3602879701896397/18014398509481984"],
+                                     [[1, 1], "3152519739159347/4503599627370496"]]},   # 0.1, 0.2, 0.7
+            {"op": "dist_new", "args": [7], "normalize": True}, {"op": "dist_sub", "args": [8], "qubits": [-1]},
+            {"op": "dist_sub", "args": [8], "qubits": [-1, 0]}, {"op": "report", "kind": "distance", "measure": "jsd", "args": [8, 10]},
+            {"op": "dist_sub", "args": [1], "qubits": [-1, 0]}, {"op": "meas_representing", "args": [8], "n": 9, "seed": 5}]},
+        # amplitudes rounded to six digits (accepted by np.isclose, |sum p - 1| ~ 3e-7), a real-dtype array, probabilities read
+        # several ways; the source arrays and the wavefunctions must stay bit-identical
+        {"kind": "wf", "calls": [
+            {"op": "lit_arr", "a": [["707107/1000000", 0], [0, "707107/1000000"]]}, {"op": "wf_new", "args": [0]},
+            {"op": "wf_probs", "args": [1]}, {"op": "report", "kind": "outcome_probs", "args": [1]},
+            {"op": "report", "kind": "amplitudes", "args": [1]}, {"op": "report", "kind": "str", "args": [1]},
+            {"op": "lit_arr", "a": [["57735/100000", 0], ["57735/100000", 0], ["57735/100000", 0], [0, 0]], "dtype": "float64"},
+            {"op": "wf_new", "args": [2]}, {"op": "report", "kind": "sample", "args": [3], "n": 3, "seed": 1},
+            {"op": "wf_probs", "args": [3]}, {"op": "report", "kind": "flip", "args": [3]}, {"op": "report", "kind": "eq", "args": [1, 1]},
+            {"op": "report", "kind": "save", "args": [1]}, {"op": "wf_probs", "args": [1]}]},
+        # a symbolic wavefunction (sympy Matrix inside): probabilities, partial and full binding (oracle only)
+        {"kind": "wfsym", "calls": [
+            {"op": "lit_symvec", "exprs": ["1/2", "1/2", "sqrt(2)*cos(phi)/2", "sqrt(2)*sin(phi)/2"]}, {"op": "wf_new", "args": [0]},
+            {"op": "wf_probs", "args": [1]}, {"op": "wf_bind", "args": [1], "map": [["theta", "1/2"]]},
+            {"op": "wf_bind", "args": [1], "map": [["phi", "1/4"]]}, {"op": "wf_probs", "args": [3]},
+            {"op": "report", "kind": "outcome_probs", "args": [1]}, {"op": "wf_bind", "args": [1], "map": []},
+            {"op": "report", "kind": "eq", "args": [1, 4]}, {"op": "wf_probs", "args": [1]}]},
     ]
 
 
@@ -839,7 +1408,7 @@ class _Gen:
 
     def __init__(self, rng, big):
         self.rng, self.big = rng, big
-        self.calls, self.meta = [], []
+        self.calls, self.meta, self.log = [], [], []
 
     # -- bookkeeping
     LIM = 24  # coefficients stay exact in floats and never come near the 1e-8 of np.isclose
@@ -848,10 +1417,70 @@ class _Gen:
         if meta and ("ib" in meta) and (meta["ib"] > self.LIM or meta["fb"] > self.LIM):
             raise _TooBig()
         self.calls.append(call)
+        if call["op"] not in LITERALS:
+            self.log.append((call, meta))
         if call["op"] in OBJECT_OPS:
             self.meta.append(meta)
             return len(self.meta) - 1
         return None
+
+    # -- the same call again later in the history / a sibling that differs in exactly one component
+    def again(self):
+        if not self.log:
+            return False
+        call, meta = self.rng.choice(self.log[-8:])
+        self.emit(json.loads(json.dumps(call)), dict(meta) if meta else None)
+        return True
+
+    def sibling(self):
+        rng = self.rng
+        if not self.log:
+            return False
+        call, meta = rng.choice(self.log[-6:])
+        c = json.loads(json.dumps(call))
+        op, args = c["op"], c.get("args", [])
+        cf = [rat(_dy(rng)), rat(_dy(rng, nonzero=False)) if rng.random() < 0.3 else 0]
+        if op == "dist_sub" and meta is not None:
+            w = self.meta[args[0]]["w"]
+            qs = list(c["qubits"])
+            if rng.random() < 0.5:
+                i = rng.randrange(len(qs))
+                qs[i] = qs[i] - w if qs[i] >= 0 else qs[i] + w   # the same qubit, counted from the other end
+            else:
+                rng.shuffle(qs)
+            c["qubits"] = qs
+        elif op in ("term_scale", "sum_rmul") or (op == "term_copy" and "coef" in c):
+            c["coef"] = cf
+            if meta is not None and meta.get("ib", 0) > self.LIM:
+                return False
+        elif op == "circ_bind" and c["map"]:
+            c["map"] = [[k, rat(_dy(rng, 4, -6, 6, False))] for k, _ in c["map"]]
+        elif op == "meas_representing":
+            c["seed"] = rng.randrange(2 ** 31)
+        elif op == "report" and c["kind"] == "sample":
+            c["seed"] = rng.randrange(2 ** 31)
+        elif op == "report" and c["kind"] == "distance":
+            c["measure"] = rng.choice([m for m in ("cnll", "mmd", "jsd") if m != c["measure"]])
+        elif op == "report" and c["kind"] in ("expectation_values", "parities", "wf_expectation") and len(args) == 2:
+            # the same long-lived receiver, ANOTHER operator of the same shape class
+            oi, ri = (0, 1) if c["kind"] == "wf_expectation" else (1, 0)
+            mr, mo = self.meta[args[ri]], self.meta[args[oi]]
+            lim = mr["nq"] if c["kind"] == "wf_expectation" else mr["w"]
+            cand = [i for i, m in enumerate(self.meta) if m and m["k"] == mo["k"] and i != args[oi] and m["nq"] <= lim
+                    and m.get("nt", 1) > 0 and (c["kind"] != "wf_expectation" or m["nq"] > 0)]
+            if not cand:
+                return False
+            prefer = [i for i in cand if self.meta[i].get("nt") == mo.get("nt")]   # same number of terms first
+            c["args"][oi] = rng.choice(prefer or cand)
+        elif op in ("term_mul", "term_add", "sum_add", "sum_mul", "circ_add") or (op == "report" and c["kind"] == "eq"):
+            if len(args) != 2 or args[0] == args[1] or self.meta[args[0]] is None or self.meta[args[1]] is None \
+                    or self.meta[args[0]]["k"] != self.meta[args[1]]["k"]:
+                return False
+            c["args"] = [args[1], args[0]]
+        else:
+            return False
+        self.emit(c, dict(meta) if meta else None)
+        return True
 
     def pick(self, kind, pred=lambda m: True):
         c = [i for i, m in enumerate(self.meta) if m and m["k"] == kind and pred(m)]
@@ -906,8 +1535,9 @@ class _Gen:
     def lit_ops(self):
         n = self.rng.choice([0, 1, 2, 3, 4, 5])
         ops, sym, heavy, mq = [], False, False, -1
+        wide = self.rng.random() < 0.2   # a register of 9-12 qubits (structure only: never turned into a matrix)
         for _ in range(n):
-            o, s, hv = self.gop()
+            o, s, hv = self.gop(maxq=12 if wide else 4)
             ops.append(o)
             sym, heavy, mq = sym or s, heavy or hv, max(mq, max(o["q"]))
         return self.emit({"op": "lit_ops", "ops": ops}, {"k": "oplist", "n": n, "sym": sym, "heavy": heavy, "nq": mq + 1})
@@ -916,11 +1546,23 @@ class _Gen:
         rng = self.rng
         qs = rng.sample(range(maxq), rng.randrange(0, min(maxq, 3) + 1))
         ops = [[q, "Z" if ising else rng.choice("XYZ")] for q in qs]
+        extra = {}
         if rng.random() < 0.4:
             coef = [rat(_dy(rng)), rat(_dy(rng))]
         else:
             coef = [rat(_dy(rng, nonzero=rng.random() < 0.9)), 0]
-        return self.emit({"op": "term_new", "ops": ops, "coef": coef},
+            r = rng.random()
+            if r < 0.15:
+                coef = [rat(_dy(rng, den=1)), 0]
+                extra["ctype"] = "int"        # a Python int as coefficient
+            elif r < 0.3:
+                extra["ctype"] = "complex"    # complex with a zero imaginary part
+        r = rng.random()
+        if r < 0.12:
+            extra["form"] = "str"             # PauliTerm("<coefficient>*X0*Y1")
+        elif r < 0.2 and len({q for q, _ in ops}) == len(ops):
+            extra["form"] = "iter"            # PauliTerm.from_iterable
+        return self.emit({"op": "term_new", "ops": ops, "coef": coef, **extra},
                          {"k": "term", "nq": max(qs) + 1 if qs else 0, "ising": all(o[1] == "Z" for o in ops), "nt": 1,
                           "ib": 2, "fb": 2})
 
@@ -934,8 +1576,17 @@ class _Gen:
     def lit_dict(self, malformed=False):
         rng = self.rng
         w = rng.choice([1, 2, 3])
-        keys = rng.sample([[(i >> b) & 1 for b in range(w)] for i in range(2 ** w)], rng.randrange(1, min(2 ** w, 5) + 1))
-        style = rng.choice(["norm", "norm", "unnorm", "zero" if malformed else "unnorm", "neg" if malformed else "norm"])
+        nb = rng.random() < 0.12   # outcomes that are not bits (multi-digit entries)
+        if nb:
+            keys = []
+            while len(keys) < rng.randrange(1, 5):
+                k = [rng.choice([0, 1, 2, 3, 10, 11]) for _ in range(w)]
+                if k not in keys:
+                    keys.append(k)
+        else:
+            keys = rng.sample([[(i >> b) & 1 for b in range(w)] for i in range(2 ** w)], rng.randrange(1, min(2 ** w, 5) + 1))
+        style = rng.choice(["norm", "norm", "unnorm", "zero" if malformed else "unnorm", "neg" if malformed else "norm",
+                            "approx", "approx"])
         if style == "norm":
             den = rng.choice([4, 8, 16])
             cuts = sorted(rng.randrange(0, den + 1) for _ in range(len(keys) - 1))
@@ -946,13 +1597,31 @@ class _Gen:
                 vals[0] = Fraction(3)
         elif style == "zero":
             vals = [Fraction(0) for _ in keys]
+        elif style == "approx":
+            # decimal probabilities: the floats sum to 1 only up to rounding (math.isclose), or visibly not at all
+            for _ in range(6):
+                wts = [rng.randrange(1, 10) for _ in keys]
+                tot = sum(wts) if rng.random() < 0.7 else sum(wts) + rng.choice([-0.5, 1, 3])
+                vals = [Fraction(x / tot) for x in wts]
+                if sum(vals) != 1:   # (prefer float probabilities whose sum is NOT exactly 1.0)
+                    break
         else:
             vals = [Fraction(rng.randrange(-3, 4), 2) for _ in keys]
         if malformed and rng.random() < 0.3:
             keys[0] = keys[0] + [1]
-        d = [[k, rat(v)] for k, v in zip(keys, vals)]
         ok = all(v >= 0 for v in vals) and len({len(k) for k in keys}) == 1
-        return self.emit({"op": "lit_dict", "d": d}, {"k": "ddict", "w": w, "ok": ok, "sum": sum(vals)})
+        # how the caller writes the outcomes: tuples, digit strings, comma-separated strings, or a mixture
+        form = rng.choice(["tuple", "tuple", "str", "comma", "mixed"])
+        jkeys = []
+        for k in keys:
+            f = form if form != "mixed" else rng.choice(["tuple", "str", "comma"])
+            if f == "str" and (max(k) > 9 or not k):
+                f = "comma"
+            if f == "comma" and len(k) < 2:
+                f = "tuple"      # "3" without a comma is read digit by digit anyway
+            jkeys.append(k if f == "tuple" else ("".join(map(str, k)) if f == "str" else ",".join(map(str, k))))
+        d = [[k, rat(v)] for k, v in zip(jkeys, vals)]
+        return self.emit({"op": "lit_dict", "d": d}, {"k": "ddict", "w": w, "ok": ok, "sum": sum(vals), "nb": nb})
 
     def lit_arr(self, malformed=False):
         rng = self.rng
@@ -962,9 +1631,31 @@ class _Gen:
                 [(Fraction(1, 2), 0)] * 4 + [(0, 0)] * 4,
                 [(0, 0)] * 7 + [(0, -1)]]
         bad = [[(Fraction(1, 2), 0), (Fraction(1, 2), 0)], [(1, 0), (0, 0), (0, 0)], [(1, 0), (1, 0)]]
-        a = rng.choice(bad) if malformed else rng.choice(good)
+        extra = {}
+        if rng.random() < 0.4:
+            # amplitudes as they come out of text / single precision: normalised only up to np.isclose
+            # (|sum p - 1| < 5e-6; malformed: > 1e-4, rejected by the constructor)
+            while True:
+                n = rng.choice([2, 4, 8])
+                cplx = rng.random() < 0.6
+                raw = [complex(rng.randrange(-4, 5), rng.randrange(-4, 5) if cplx else 0) for _ in range(n)]
+                nrm = sum(abs(z) ** 2 for z in raw) ** 0.5
+                if nrm == 0:
+                    continue
+                digits = rng.choice([5, 6, 7])
+                scale = (1 + 2e-4) if malformed else 1.0
+                a = [(Fraction(round(z.real / nrm * scale, digits)), Fraction(round(z.imag / nrm * scale, digits))) for z in raw]
+                p = sum(x * x + y * y for x, y in a)
+                if (abs(p - 1) > Fraction(1, 10 ** 4)) if malformed else (0 < abs(p - 1) < Fraction(5, 10 ** 6)):
+                    break
+        else:
+            a = rng.choice(bad) if malformed else rng.choice(good)
+        if all(y == 0 for _, y in a) and rng.random() < 0.3:
+            extra["dtype"] = "float64"      # a real array: np.asarray(..., dtype=complex) has to convert it
+        elif rng.random() < 0.1 and all(Fraction(v).denominator in (1, 2, 4, 8, 16) for xy in a for v in xy):
+            extra["dtype"] = "complex64"
         n = len(a)
-        return self.emit({"op": "lit_arr", "a": [[rat(x), rat(y)] for x, y in a]},
+        return self.emit({"op": "lit_arr", "a": [[rat(x), rat(y)] for x, y in a], **extra},
                          {"k": "arr", "n": n, "ok": not malformed, "nq": n.bit_length() - 1})
 
     # -- one random listed call of a family; returns False if nothing applicable
@@ -1149,7 +1840,7 @@ class _Gen:
         elif choice == "save":
             E({"op": "report", "kind": "save", "args": [m]}, None)
         elif choice == "representing":
-            d = self.pick("dist", lambda x: x.get("normalized"))
+            d = self.pick("dist", lambda x: x.get("normalized") and not x.get("nb"))
             if d is None:
                 return False
             E({"op": "meas_representing", "args": [d], "n": rng.randrange(1, 12), "seed": rng.randrange(2 ** 31)},
@@ -1160,7 +1851,7 @@ class _Gen:
         rng, E = self.rng, self.emit
         d = self.pick("dist")
         choice = rng.choice(["new", "new", "sub", "sub", "distance", "save", "n_subsystems", "str", "representing", "sub",
-                             "distance", "distance"])
+                             "distance", "distance", "representing"])
         if d is None or choice == "new":
             l = self.pick("ddict")
             if l is None or rng.random() < 0.5:
@@ -1169,22 +1860,27 @@ class _Gen:
             nrm = rng.random() < 0.7
             ok = ml["ok"] and not (ml["sum"] == 0 and nrm)
             E({"op": "dist_new", "args": [l], "normalize": nrm},
-              {"k": "dist", "w": ml["w"], "normalized": nrm or ml["sum"] == 1} if ok else None)
+              {"k": "dist", "w": ml["w"], "normalized": nrm or abs(ml["sum"] - 1) < Fraction(1, 10 ** 10), "nb": ml.get("nb")}
+              if ok else None)
             return True
         md = self.meta[d]
         if choice == "sub":
             w = md["w"]
             qs = rng.sample(range(w), rng.randrange(1, w + 1))
+            if rng.random() < 0.35:   # indices counted from the end (plain tuple indexing accepts them)
+                qs = [q - w if rng.random() < 0.6 else q for q in qs]
             if malformed:
-                qs = rng.choice([[], qs + [qs[0]], qs + [w], [w + 1]])
-            ok = len(qs) > 0 and len(set(qs)) == len(qs) and max(qs) < w
+                qs = rng.choice([[], qs + [qs[0]], qs + [w], [w + 1], [-w - 1], qs + [-w - 2], qs + [qs[0] - w if qs[0] >= 0 else qs[0] + w]])
+            ok = len(qs) > 0 and len(set(qs)) == len(qs) and max(qs) < w and min(qs) >= -w
             E({"op": "dist_sub", "args": [d], "qubits": qs},
-              {"k": "dist", "w": len(qs), "normalized": md["normalized"]} if ok else None)
+              {"k": "dist", "w": len(qs), "normalized": md["normalized"], "nb": md.get("nb")} if ok else None)
         elif choice == "distance":
             e = self.pick("dist", lambda x: x["w"] == md["w"]) if rng.random() < 0.9 else self.pick("dist")
+            if md.get("nb") or self.meta[e].get("nb"):
+                return False
             E({"op": "report", "kind": "distance", "measure": rng.choice(["cnll", "mmd", "jsd"]), "args": [d, e]}, None)
         elif choice == "representing":
-            if not md.get("normalized"):
+            if not md.get("normalized") or md.get("nb"):
                 return False
             E({"op": "meas_representing", "args": [d], "n": rng.randrange(1, 12), "seed": rng.randrange(2 ** 31)},
               {"k": "meas", "w": md["w"], "n": 1})
@@ -1192,9 +1888,37 @@ class _Gen:
             E({"op": "report", "kind": choice, "args": [d]}, None)
         return True
 
+    SYMVECS = [["cos(theta)", "sin(theta)"], ["cos(theta)", "I*sin(theta)"], ["cos(theta)", "0", "0", "sin(theta)"],
+               ["1/2", "1/2", "sqrt(2)*cos(phi)/2", "sqrt(2)*sin(phi)/2"], ["theta", "phi"], ["3/5", "4*cos(theta)/5"],
+               ["cos(theta)*cos(phi)", "cos(theta)*sin(phi)", "sin(theta)", "0"]]
+
+    def wfsym_call(self):
+        """symbolic wavefunctions (a sympy Matrix inside): the other branch of amplitudes / bind / get_probabilities"""
+        rng, E = self.rng, self.emit
+        w = self.pick("wf", lambda m: m.get("sym"))
+        choice = rng.choice(["new", "probs", "outcome_probs", "bind", "bind", "eq", "str", "amplitudes", "flip", "probs"])
+        if w is None or choice == "new":
+            v = self.pick("symvec")
+            if v is None or rng.random() < 0.5:
+                ex = rng.choice(self.SYMVECS)
+                v = E({"op": "lit_symvec", "exprs": ex}, {"k": "symvec", "n": len(ex)})
+            E({"op": "wf_new", "args": [v]}, {"k": "wf", "nq": self.meta[v]["n"].bit_length() - 1, "sym": True})
+            return True
+        if choice == "probs":
+            E({"op": "wf_probs", "args": [w]}, None)
+        elif choice == "bind":
+            which = rng.choice([SYMS, SYMS[:1], SYMS[1:], []])
+            mp = [[s, rat(_dy(rng, 4, -6, 6, False))] for s in which]
+            E({"op": "wf_bind", "args": [w], "map": mp}, {"k": "wf", "nq": self.meta[w]["nq"], "sym": True})
+        elif choice == "eq":
+            E({"op": "report", "kind": "eq", "args": [w, self.pick("wf")]}, None)
+        else:
+            E({"op": "report", "kind": choice, "args": [w]}, None)
+        return True
+
     def wf_call(self, malformed=False):
         rng, E = self.rng, self.emit
-        w = self.pick("wf")
+        w = self.pick("wf", lambda m: not m.get("sym"))
         choice = rng.choice(["new", "probs", "outcome_probs", "bind", "eq", "expectation", "flip", "sample", "gate_apply",
                              "save", "str", "amplitudes", "probs", "outcome_probs"])
         if w is None or choice == "new":
@@ -1239,12 +1963,19 @@ def _history(rng, big, family, malformed=False):
     fams = {"circuit": [g.circuit_call], "pauli": [g.pauli_call], "meas": [g.meas_call, g.pauli_call, g.meas_call],
             "dist": [lambda: g.dist_call(malformed), lambda: g.dist_call(malformed), g.meas_call],
             "wf": [lambda: g.wf_call(malformed), g.pauli_call, lambda: g.wf_call(malformed)],
+            "wfsym": [g.wfsym_call, g.wfsym_call, lambda: g.wf_call(malformed)],
             "mixed": [g.circuit_call, g.pauli_call, g.meas_call, lambda: g.dist_call(malformed), lambda: g.wf_call(malformed)]}[family]
     guard = 0
     while len(g.calls) < target and guard < 200:
         guard += 1
         try:
-            rng.choice(fams)()
+            r = rng.random()
+            if r < 0.10:
+                g.again()
+            elif r < 0.18:
+                g.sibling()
+            else:
+                rng.choice(fams)()
         except _TooBig:
             pass
     return {"kind": family + ("-malformed" if malformed else ""), "calls": g.calls}
@@ -1267,7 +1998,13 @@ def _evalframe_case(rng):
         v[i] = [0, 1]
     else:
         v[i], v[j] = ["3/5", 0], [0, "4/5"]
-    return {"kind": "evalframe", "n": n, "ops": ops, "v": v}
+    extra = {}
+    r = rng.random()
+    if r < 0.2:
+        extra["dtype"] = "complex64"
+    if rng.random() < 0.25:
+        extra["strided"] = True
+    return {"kind": "evalframe", "n": n, "ops": ops, "v": v, **extra}
 
 
 def generate(rng, tier):
@@ -1279,4 +2016,6 @@ def generate(rng, tier):
         cases.append(_history(rng, big, fams[i % len(fams)]))
     for i in range(n // 6):  # the malformed stream: invalid dicts, qubit lists, amplitude vectors
         cases.append(_history(rng, big, ["dist", "wf", "mixed"][i % 3], malformed=True))
+    for i in range(n // 14):  # symbolic wavefunctions (oracle only)
+        cases.append(_history(rng, big, "wfsym"))
     return cases
